@@ -219,10 +219,11 @@ func C14(c *run.Ctx) {
 		preset   time.Duration // pre-set expiry (from now), 0 none
 		extraAud bool
 		custom   bool
+		reserved bool // the custom claims include names of registered ID-token claims (forwarded from an upstream provider)
 	}
 	svs := []sessVar{{name: "plain"}, {name: "auth-100s-before", authOff: -100}, {name: "auth-100s-after", authOff: 100}, {name: "no-auth-time", zeroAuth: true},
 		{name: "auth-500ms-before", subMs: -500}, {name: "auth-500ms-after", subMs: 500}, {name: "auth-50.5s-before", authOff: -50, subMs: -500},
-		{name: "empty-subject", emptySub: true}, {name: "preset-expiry-10m", preset: 10 * time.Minute}, {name: "preset-audience", extraAud: true}, {name: "custom-claims", custom: true}}
+		{name: "empty-subject", emptySub: true}, {name: "preset-expiry-10m", preset: 10 * time.Minute}, {name: "preset-audience", extraAud: true}, {name: "custom-claims", custom: true}, {name: "custom-claims-with-reserved-names", custom: true, reserved: true}}
 	type reqVar struct {
 		name   string
 		params url.Values
@@ -357,6 +358,11 @@ func C14(c *run.Ctx) {
 							}
 							if sv.custom {
 								s.Claims.Extra = map[string]interface{}{"email": "u@example.com", "aud_hint": "x", "sub_alias": "zzz"}
+								if sv.reserved {
+									for k, v := range map[string]interface{}{"nonce": "upstream-nonce", "at_hash": "upstream-at-hash", "c_hash": "upstream-c-hash", "iss": "https://upstream.example", "acr": "9", "rat": 12345} {
+										s.Claims.Extra[k] = v
+									}
+								}
 							}
 						}
 						want := rv.satisfied(sv)
